@@ -78,8 +78,11 @@ def run(tier, seed, replay=None):
         cur_sets = {}
         touched = set()
         opstep = 1
+        fresh = []          # (snapall step, new solution, its source): the copy must equal the original when taken
+        pending = []
         for o in ops:
             if o == "op copy":
+                pending.append((nsol, cur))
                 nsol += 1
             elif o.startswith("op switch"):
                 t = int(o.split()[2])
@@ -88,9 +91,17 @@ def run(tier, seed, replay=None):
             elif o == "op snapall":
                 cur_sets[opstep] = set(touched)
                 touched = set()
+                fresh += [(opstep, a, b_) for a, b_ in pending]
+                pending = []
             else:
                 touched.add(cur)
             opstep += 1
+        for (s_, a, b_) in fresh:
+            if s_ in blocks and a in blocks[s_] and b_ in blocks[s_] and blocks[s_][a] != blocks[s_][b_]:
+                dl = [(x, y) for x, y in zip(blocks[s_][a], blocks[s_][b_]) if x != y][:1]
+                viol += 1
+                chk.violation({"kind": "history", "what": "copy (solution %d) differs from its original (solution %d) right after Copy(): %s" % (a, b_, dl),
+                               "step": s_, "case": G.case_lines(r["case"]["model"], r["case"]["ops"][:s_])})
         prev = None
         for s_ in steps:
             if prev is not None:
@@ -100,7 +111,7 @@ def run(tier, seed, replay=None):
                         chk.violation({"kind": "history", "what": "solution %d changed although no operation targeted it" % j,
                                        "case": G.case_lines(r["case"]["model"], r["case"]["ops"])})
             prev = s_
-    chk.ob("untouched solutions keep their snapshot (oracle on the implementation's output)", viol == 0)
+    chk.ob("a copy equals its original when taken (incl. cached slack) and untouched solutions keep their snapshot (oracle on the implementation's output)", viol == 0)
     chk.ev.cov.update({
         "evaluations": n, "distinct_nontrivial": sum(1 for c in cases if "op copy" in c["ops"]),
         "rule": "generated models x histories of plan/unplan/copy/switch with a snapshot of every live solution after each copy/switch; non-trivial = history with at least one copy",
